@@ -37,7 +37,7 @@ N(l) == NM("", l)
 ProbeDoc == XE(N(<<"D", "-", "a">>), <<[nm |-> N(<<"x", "-", "Y">>), v |-> <<"1">>], [nm |-> N(<<"B">>), v |-> <<" ", "&">>]>>,
                <<XT(<<"\n">>), XE(N(<<"e", "-", "f">>), <<>>, <<XT(<<" ", "7", " ">>)>>), XE(N(<<"e", "-", "f">>), <<>>, <<XT(<<"<", "v">>)>>), XE(N(<<"g">>), <<>>, <<>>),
                  XE(N(<<"h">>), <<[nm |-> N(<<"k">>), v |-> <<"q">>]>>, <<XT(<<"t", "r", "u", "e">>)>>), XT(<<"\n">>)>>)
-ProbeSeqDoc == XE(NM("p", <<"A">>), <<[nm |-> N(<<"z", "-", "z">>), v |-> <<"1">>]>>,
+ProbeSeqDoc == XE(NM("p", <<"A">>), <<[nm |-> N(<<"z", "-", "z">>), v |-> <<"1", "&">>]>>,
                   <<XC(<<"c">>), XE(N(<<"B", "-", "c">>), <<>>, <<XT(<<" ", "v", " ">>)>>), XE(N(<<"d">>), <<>>, <<XT(<<"<", "7">>)>>)>>)
 ProbeMap == VM(<<"d", "o", "c">> :> VM((<<"-", "x">> :> VS(<<"1">>)) @@ (<<"@", "y">> :> VS(<<"2">>)) @@ (<<"#", "t", "e", "x", "t">> :> VS(<<"t", "<">>))
                   @@ (<<"_", "t", "e", "x", "t">> :> VS(<<"u">>)) @@ (<<"e">> :> VL(<<VS(<<"a">>), VS(<<>>), VM(<<"-", "k">> :> VS(<<"v">>))>>)) @@ (<<"g">> :> EmptyMap)))
@@ -79,11 +79,17 @@ StripPfx(o, k) == SubSeq(k, Len(o.attrPrefix) + 1, Len(k))
 \* NewMapJson of {"n":1.50,"s":"x"}: the number as float64, or its text under JsonUseNumber
 JsonProbeResult(o) == VM(("n" :> IF o.jsonUseNumber THEN [t |-> "num", v |-> "1.50"] ELSE VF("1.5")) @@ ("s" :> VS("x")))
 
+\* NewMap key pairs "old:new" are split at ':' whatever the field separator register holds
+NewMapPairs == {"a:p", "a|p"}
+NewMapResult(pr) == IF pr = "a:p" THEN NewMapOp(ProbeQMap, <<[old |-> <<PK("a", -1)>>, new |-> <<"p">>]>>)
+                    ELSE EmptyMap                                   \* "a|p" is the shorthand for a key that does not exist: skipped
+
 \* the operations: [op |-> class, arg |-> which]
 AllOps == {[op |-> "dec", arg |-> a] : a \in {"plain", "cast"}} \cup {[op |-> "seq", arg |-> "plain"], [op |-> "enc", arg |-> "plain"]}
           \cup {[op |-> "leaf", arg |-> a] : a \in {"T", "F"}}
           \cup {[op |-> "query", arg |-> Join(s)] : s \in SubKeyStrs}
           \cup {[op |-> "upd", arg |-> Join(s)] : s \in NewValStrs}        \* UpdateValuesForPath(s, "a") on a copy of the query probe
+          \cup {[op |-> "newmap", arg |-> pr] : pr \in NewMapPairs}       \* NewMap(pair) on the query probe
           \cup {[op |-> "struct", arg |-> a] : a \in {"elems", "attrs"}}   \* Elements("doc") / Attributes("doc") of the leaf probe
           \cup {[op |-> "seqrt", arg |-> "plain"]}                         \* MapSeq.Xml() of NewMapXmlSeq(probe)
           \cup {[op |-> "json", arg |-> "plain"]}                          \* NewMapJson of a document with a non-canonical numeral
@@ -101,6 +107,7 @@ OpResult(o, op) ==
     [] op.op = "leaf" -> LeafSeq(ProbeLeafMap, op.arg = "T", o.dot, AttrKeysOf(o), o.keyPrefix \o "text")
     [] op.op = "query" -> QueryResult(o, CHOOSE s \in SubKeyStrs : Join(s) = op.arg)
     [] op.op = "upd" -> UpdResult(o, CHOOSE s \in NewValStrs : Join(s) = op.arg)
+    [] op.op = "newmap" -> NewMapResult(op.arg)
     [] op.op = "struct" -> IF op.arg = "elems" THEN SelectSeq(StructKeys, LAMBDA k : ~IsAttrK(o, k))
                            ELSE LET ks == SelectSeq(StructKeys, LAMBDA k : IsAttrK(o, k)) IN [i \in 1..Len(ks) |-> StripPfx(o, ks[i])]
     [] op.op = "seqrt" -> LET so == SeqOpts(o) IN
@@ -129,6 +136,7 @@ Functional == \A i, j \in 1..Len(hist) :
 OpClass(op) == CASE op = "dec" -> "decodeCast" [] op = "seq" -> "decodeSeq" [] op = "enc" -> "encode" [] op = "leaf" -> "leaf" [] op = "query" -> "query"
                  [] op = "upd" -> "query" [] op = "struct" -> "struct" [] op = "json" -> "jsonDecode"
 RelOf(op) == IF op = "cast" THEN CastRegs \ {"skipTag"}
+             ELSE IF op = "newmap" THEN {}
              ELSE IF op = "seqrt" THEN Relevant["decodeSeq"] \cup Relevant["encodeSeq"]
              ELSE Relevant[OpClass(op)]
 OnlyRelevant == Len(hist) = MaxHist => \A op \in ActiveOpSet :      \* (evaluated where a session ends: it is a function of opt alone)
@@ -139,5 +147,5 @@ Emit == Len(hist) = MaxHist =>
    PrintT(ToJson([f |-> "mxj", hist |-> hist, restore |-> RestoreCalls(TRUE)]))
 AllFns == ToggleNames \cup {"DisableTrimWhiteSpace", "PrependAttrWithHyphen", "SetAttrPrefix", "XMLEscapeChars", "XMLEscapeCharsDecoder",
            "XmlGoEmptyElemSyntax", "XmlDefaultEmptyElemSyntax", "SetFieldSeparator", "SetArraySize", "SetGlobalKeyMapPrefix", "JsonUseNumber"}
-AllOpNames == {"dec", "seq", "enc", "leaf", "query", "cast", "upd", "struct", "seqrt", "json"}
+AllOpNames == {"dec", "seq", "enc", "leaf", "query", "cast", "upd", "struct", "seqrt", "json", "newmap"}
 =============================================================================
